@@ -290,6 +290,7 @@ def run(oc, tier, seed):
              ("S note W (o | x | - | ~ | < | >) G # section", "NOTE", ["#", "section"], []),
              ("S count(note) W (o | x | - | ~ | < | >) G # section", ["count", "NOTE"], ["#", "section"], []),
              ("S note W (o | x | - | ~ | < | >) G file # section +", "NOTE", ["file", "#", "section", "+"], [])]
+    search = [120]
     for di in range(n_dirs):
         with Z.tmpdir("c09_") as d:
             write_tree(d, gen_dir(rng))
@@ -317,9 +318,15 @@ def run(oc, tier, seed):
                             eng.close()
                             return
                 if m != out:
-                    oc.corr_mismatch.append(("swog.execute", dict(case, notes=notes[:40]), out, m))
-                    eng.close()
-                    return
+                    # model and implementation differ: keep looking (bounded) for a query on which the property itself fails,
+                    # so that the report carries a concrete failing input
+                    if not oc.corr_mismatch:
+                        oc.corr_mismatch.append(("swog.execute", dict(case, notes=notes[:40]), out, m))
+                    search[0] -= 1
+                    if search[0] <= 0:
+                        eng.close()
+                        return
+                    continue
                 if len(gs) >= 2 or len(os_) >= 2:
                     oc.nontriv(q + str(di))
                 oc.count("groups_%d" % len(gs))
